@@ -19,6 +19,7 @@ class Loop:
     inv: Callable                      # inv(cx, k, v) -> bool term
     decreases: Optional[Callable] = None   # for while loops: measure(cx, v) -> int term (>=0, strictly decreasing)
     label: str = ""
+    hints: tuple = ()                  # intermediate assertions for the step obligation: h(cx, k, v) (proved, then assumed)
 
 
 @dataclass
@@ -46,21 +47,26 @@ class Contract:
     replay: Optional[Callable] = None  # replay(model dict) -> dict(inputs=..., observed=..., violates=bool)
     note: str = ""
     defaults: dict = field(default_factory=dict)    # param name -> default concrete value
+    ensure_hints: dict = field(default_factory=dict)  # ensures label -> (hint fns)
 
     def require(self, label, fn):
         self.requires.append((label, fn))
         return self
 
-    def ensure(self, label, fn):
+    def ensure(self, label, fn, hints=()):
+        """hints: intermediate assertions h(cx, result, v, **params), each proved from the path condition and the
+        earlier hints and then assumed for the clause (like `assert` in Dafny/Verus)"""
         self.ensures.append((label, fn))
+        if hints:
+            self.ensure_hints[label] = tuple(hints)
         return self
 
     def may_raise(self, exc, when=None, exact=True, label=""):
         self.raises.append(Raise(exc, when, exact, label or exc))
         return self
 
-    def loop(self, ordinal, inv, decreases=None, label=""):
-        self.loops[ordinal] = Loop(inv, decreases, label or f"loop{ordinal}")
+    def loop(self, ordinal, inv, decreases=None, label="", hints=()):
+        self.loops[ordinal] = Loop(inv, decreases, label or f"loop{ordinal}", tuple(hints))
         return self
 
 
